@@ -4,6 +4,7 @@ import (
 	"fmt"
 	"go/constant"
 	"go/token"
+	"go/types"
 	"regexp/syntax"
 	"sort"
 	"strings"
@@ -131,6 +132,11 @@ func (c *Ctx) INV(rule string) []report.Obligation {
 			seenB := map[*ssa.BasicBlock]bool{}
 			work := []*ssa.BasicBlock{r.Block()}
 			first := true
+			type decided struct {
+				cond ssa.Value
+				succ int
+			}
+			var deciding []decided
 			for len(work) > 0 {
 				blk := work[0]
 				work = work[1:]
@@ -141,6 +147,7 @@ func (c *Ctx) INV(rule string) []report.Obligation {
 					seenB[d.Branch] = true
 					if iff, ok := d.Branch.Instrs[len(d.Branch.Instrs)-1].(*ssa.If); ok {
 						c.tokensOf(iff.Cond, 10, toks, map[ssa.Value]bool{})
+						deciding = append(deciding, decided{iff.Cond, d.Succ})
 					}
 					if d.Branch.Dominates(r.Block()) {
 						work = append(work, d.Branch)
@@ -149,6 +156,57 @@ func (c *Ctx) INV(rule string) []report.Obligation {
 				first = false
 			}
 			sums = append(sums, retSum{c.P.InstrPos(r), toks})
+			// INV-guard: an error is reported only where an optional part of the model is present (`s.Deploy != nil`)
+			// only if the rule looks inside that part. A nil guard on a part the rule never dereferences switches
+			// the rule off for every model that omits it (container_name + scale without a deploy section).
+			for _, fct := range prog.DominatingFacts(r.Block()) {
+				bo, ok := fct.Cond.(*ssa.BinOp)
+				if !ok || (bo.Op != token.EQL && bo.Op != token.NEQ) {
+					continue
+				}
+				var ptr ssa.Value
+				if prog.IsNilConst(bo.Y) {
+					ptr = bo.X
+				} else if prog.IsNilConst(bo.X) {
+					ptr = bo.Y
+				}
+				if ptr == nil {
+					continue
+				}
+				ld, isLd := ptr.(*ssa.UnOp)
+				if !isLd || ld.Op != token.MUL {
+					continue
+				}
+				if _, isFA := ld.X.(*ssa.FieldAddr); !isFA {
+					continue
+				}
+				if pt, isP := ld.Type().Underlying().(*types.Pointer); !isP {
+					continue
+				} else if _, isSt := pt.Elem().Underlying().(*types.Struct); !isSt {
+					continue
+				}
+				key := addrKey(ld.X, 5)
+				if key == "" {
+					continue
+				}
+				// is the pointer known to be non-nil wherever this error is reported?
+				if (bo.Op == token.NEQ) != fct.Val {
+					continue
+				}
+				looksInside := false
+				for _, other := range deciding {
+					if derefsPath(other.cond, key, 8, map[ssa.Value]bool{}) {
+						looksInside = true
+					}
+				}
+				for _, in := range r.Block().Instrs {
+					if v, isV := in.(ssa.Value); isV && derefsPath(v, key, 6, map[ssa.Value]bool{}) {
+						looksInside = true
+					}
+				}
+				out = append(out, verdict(looksInside, rule+"-guard", c.P.FuncID(f)+" :: "+c.P.KeyTerm(ptr, 3)+" guards a rule that looks inside it", c.P.InstrPos(r),
+					"a condition of this error reads through the guarded pointer", "this error is only reported when "+c.P.KeyTerm(ptr, 3)+" is set, yet none of its conditions looks inside it: the rule is switched off for every model that omits that section"))
+			}
 		}
 	}
 	c.Stats[rule+".error_returns"] = len(sums)
@@ -834,4 +892,27 @@ func (c *Ctx) BRACESCAN(rule string) []report.Obligation {
 		out = append(out, bad(rule, "template :: brace scan", "", "no loop comparing s[i] with a brace found in package template: the rule sees nothing"))
 	}
 	return out
+}
+
+// derefsPath: v is computed from a field access through the pointer stored at the field path key.
+func derefsPath(v ssa.Value, key string, depth int, seen map[ssa.Value]bool) bool {
+	if v == nil || depth == 0 || seen[v] {
+		return false
+	}
+	seen[v] = true
+	if fa, ok := v.(*ssa.FieldAddr); ok {
+		if ld, isLd := fa.X.(*ssa.UnOp); isLd && ld.Op == token.MUL && addrKey(ld.X, 5) == key {
+			return true
+		}
+	}
+	in, ok := v.(ssa.Instruction)
+	if !ok {
+		return false
+	}
+	for _, op := range in.Operands(nil) {
+		if *op != nil && derefsPath(*op, key, depth-1, seen) {
+			return true
+		}
+	}
+	return false
 }
